@@ -17,7 +17,8 @@ THEOREMS = ["Qentem.Props.C15." + t for t in [
     "str_consistent", "str_trichotomy", "str_lt_gt_dual", "str_le_ge_dual", "str_dual", "str_le_iff", "str_ge_iff",
     "str_ne_iff", "str_eq_iff_eq", "str_lt_trans", "str_trans", "str_lt_iff_lex", "str_prefix_lt", "str_cursor_model",
     "value_order_laws_false", "value_nan_not_consistent", "val_le_iff", "val_ge_iff", "val_consistent_partial",
-    "val_gt_eq_lt_swap", "val_eq_comm", "val_dual_partial", "val_lt_trans_partial", "val_lt_irrefl",
+    "val_gt_eq_lt_swap", "val_eq_comm", "val_dual_partial", "val_lt_trans_partial", "val_trans_partial",
+    "val_eq_iff_partial", "fixed_consistent", "fixed_dual", "fixed_trans", "fixed_agrees_on_equal_nesting", "val_lt_irrefl",
     "val_lt_same_kind", "val_lt_cross_kind", "value_type_ranks",
     "sort_ordered_permutation", "sort_segment", "str_lt_strict", "str_gt_strict", "string_sort_ascending",
     "string_sort_descending", "val_lt_strict", "val_gt_strict", "value_sort_ordered_false", "value_sort_partial",
